@@ -120,7 +120,8 @@ func CreateWalletFromMnemonic(
 		return nil, nil, err
 	}
 	w.dbInfo.Mnemonic = mnemonic
-	w.dbInfo.Address = address.FromPubKey(w.dbInfo.PrivateKey.Public()).Integrated()
+	w.dbInfo.PubKey = w.dbInfo.PrivateKey.Public()
+	w.dbInfo.Address = address.FromPubKey(w.dbInfo.PubKey).Integrated()
 
 	var kdfMemory uint32 = 6
 	var kdfIterations uint32 = 512
